@@ -49,3 +49,65 @@ def std(run):
         run.trust(t)
     for a in STD_ASSUME:
         run.assume(a)
+
+
+def json_args_obligation(run, c, prop_tag="canon.json_args"):
+    """AST clause: MetadataBase.build_file hands the serialised dict to json.dump with indent=4, sort_keys=True and
+    (",", ": ") separators; no JSON class overrides build_file with something else (A1 then makes the bytes canonical)."""
+    import ast
+    with run.obligation("common.MetadataBase.build_file#%s" % prop_tag, "ast", ["productmd.common.MetadataBase.build_file"]) as ob:
+        fn = c.src.classes[("common", "MetadataBase")].methods.get("build_file")
+        ok = False
+        why = "json.dump call not found"
+        if fn is not None:
+            for n in ast.walk(fn):
+                if isinstance(n, ast.Call) and ast.unparse(n.func) == "json.dump":
+                    kw = dict((k.arg, ast.unparse(k.value)) for k in n.keywords)
+                    args = [ast.unparse(a) for a in n.args]
+                    params = [a.arg for a in fn.args.args]
+                    ok = (len(args) >= 2 and args[0] == params[1] and args[1] == params[2] and kw.get("indent") == "4"
+                          and kw.get("sort_keys") == "True" and kw.get("separators") in ("(',', ': ')", '(",", ": ")'))
+                    why = "json.dump(%s, %s)" % (", ".join(args), ", ".join("%s=%s" % i for i in sorted(kw.items())))
+        over = [k for k, ci in c.src.classes.items() if "build_file" in ci.methods and k not in
+                (("common", "MetadataBase"), ("treeinfo", "TreeInfo"), ("discinfo", "DiscInfo"))]
+        if ok and not over:
+            ob.discharged(note=why)
+        else:
+            ob.refuted("build_file does not call json.dump(parser, f, indent=4, sort_keys=True, separators=(',', ': ')): %s %s"
+                       % (why, over), clause=prop_tag,
+                       replay_script="import io\nimport productmd.rpms as R\nm=R.Rpms(); m.compose.id='F-1-20200101.0'; m.compose.type='production'\n"
+                       "m.compose.date='20200101'; m.compose.respin=0\nm.rpms={'b':{'x86_64':{}},'a':{'x86_64':{}}}\ns=m.dumps()\nimport json\n"
+                       "exp=json.dumps(json.loads(s), indent=4, sort_keys=True, separators=(',', ': '))\n"
+                       "if s != exp: REPRODUCED('dumps() output is not json with sorted keys and 4-space indentation')\nNOT_REPRODUCED()\n")
+
+
+def contract_samples(run, c, keys, limit=None):
+    """bounded stand-in shared by several properties: every sample input of a contract through the REAL function, all
+    clauses evaluated natively"""
+    import random
+    import time
+    for k in keys:
+        con = c.contracts[k]
+        gen = getattr(con, "sample_inputs", None)
+        if gen is None:
+            continue
+        t0 = time.time()
+        n = 0
+        fails = []
+        for inputs in gen(random.Random(run.seed)):
+            if limit and n >= limit:
+                break
+            n += 1
+            try:
+                nat, cl = con.native_eval(inputs)
+            except Exception as ex:
+                continue
+            bad = [x for x, v in cl.items() if v is False]
+            if bad:
+                fails.append((inputs, bad[0], nat))
+        run.add_bounded(con.name, "contract clauses evaluated natively on sample inputs", "sample_inputs() of the contract (valid and invalid "
+                        "values of every parameter)", n, fails, seconds=time.time() - t0)
+        if fails:
+            inputs, clause, nat = fails[0]
+            run.violation("bounded:%s#%s" % (con.name, clause), clause, "%s violates clause '%s'" % (con.describe(inputs), clause),
+                          con.replay_script(inputs, clause))
